@@ -129,7 +129,7 @@ func VF_C13_L3_LockWindow() {
 	zzvf.Assert(len(m.pending()) == n, "one-query-request-per-query-resource")
 	customs := zzvf.ParamOr("customs", 1) // query events arriving during the lock
 	sentCustom := 0
-	applied := make([]int, n)   // answers applied per query
+	applied := make([]int, n)    // answers applied per query
 	wantEvents := make([]int, n) // change events expected per subscriber
 	answer := func() {
 		p := m.pending()
